@@ -31,6 +31,7 @@ def regen(ctx):
 # =========================================================================== independent arithmetic (props/C12_arith.py)
 from C12_arith import SP, MR_BASES, mr_pass, is_prime, rand_prime
 import C12_val
+import C12_obj
 from C12_val import Op
 
 
@@ -321,7 +322,7 @@ def replay_text(op, impl, model, why):
                       "# replay: ./check C12 --replay <this file>",
                       "cfg " + ("w32" if op.W == 32 else "asan"),
                       "op " + op.line,
-                      "expected " + (op.expect if op.expect is not None else "?"),
+                      "expected " + (op.expect if isinstance(op.expect, str) else "?"),
                       "# implementation printed: " + str(impl),
                       "# model printed: " + str(model)]) + "\n"
 
@@ -345,6 +346,9 @@ def generate(ctx, std, bels):
     ops = corpus(ctx)
     ops += C12_val.generate(ctx, std, bels, x_c12.extract_lr("src/crypto/stb99.c"), x_c12.extract_lr("src/crypto/pfok.c"),
                             x_c12.extract_consts()["stb99RiMargin"])
+    o_ops, fix7 = C12_obj.generate(ctx, std, vcommon.REPO)
+    ops += o_ops
+    ctx.cov["qrIsOperable_damaged_o_count_ops"] = "included" if fix7 else "skipped: qrIsOperable still walks nested objects first (docs/C12.fix-7.diff)"
     ops += gen_dates(ctx)
     for W in (64, 32):
         ops += gen_primew(ctx, W)
@@ -402,6 +406,14 @@ def run(ctx):
     kl = collections.Counter()
     for o, c, l in results:
         kl[o.klass.split(":")[0] + ("/w32" if o.W == 32 else "")] += 1
+        if callable(o.expect):
+            if not o.expect(c):
+                o.expect = "a prime of the requested bit length, = 1 (mod 2qa)"
+                bad_oracle.setdefault(o.klass, []).append((o, c, l))
+            elif l is not None and c != l:
+                bad_model.setdefault(o.klass, []).append((o, c, l))
+            o.expect = None
+            continue
         if o.expect is not None and c != o.expect:
             bad_oracle.setdefault(o.klass, []).append((o, c, l))
         elif l is not None and c != l:
@@ -413,7 +425,7 @@ def run(ctx):
     ctx.cov["model_disagreements"] = sum(len(v) for v in bad_model.values())
     ctx.cov["accepting_ops"] = sum(1 for o, c, l in results if c.startswith("1") or c == "0 ok")
     for o in ops[:2] + ops[len(ops) // 2: len(ops) // 2 + 2] + ops[-2:]:
-        ctx.samples.append({"op": o.line[:200], "expected": o.expect, "class": o.klass})
+        ctx.samples.append({"op": o.line[:200], "expected": o.expect if isinstance(o.expect, (str, type(None))) else "predicate", "class": o.klass})
     ctx.samples.append({"theorem": "Bee2V.C12.tmDateIsValid2_iff",
                         "statement": "∀ d0…d5 : UInt8, tmDateIsValid2 d0…d5 = true ↔ (all ≤ 9) ∧ Spec.gregorian (2000+YY) MM DD"})
     # ---- verdict
@@ -475,6 +487,7 @@ def c19_stream():
         sv = gen_sieve(q, w)
         ops += rng.sample(sv, min(1500, len(sv)))
         ops += gen_rm(q, w)
+        ops += C12_obj.generate(q, std, vcommon.REPO, only_w=w)[0]
         ops = [o for o in ops if not o.klass.startswith("gen:")]
         return [o.line for o in ops][:10000]
     return ("harness/c12.c", "drv_c12", fn, False)
